@@ -62,7 +62,14 @@ func (c *ClientCodec) Decode(response []byte, context *core.ClientContext) (resu
 			}
 			result = []interface{}{t.Indirect(p)}
 		default:
-			res := resp.Result.([]interface{})
+			res, ok := resp.Result.([]interface{})
+			if !ok {
+				// a single value where several results are declared: it is the first one
+				res = []interface{}{resp.Result}
+			}
+			if len(res) > n {
+				res = res[:n]
+			}
 			result = make([]interface{}, 0, len(res))
 			for i, r := range res {
 				data, _ := c.Codec.Marshal(r)
